@@ -805,8 +805,8 @@ def run(out, ctx):
                 "non-trivial = valid index selecting >= 1 entry (indexing), n >= 2 (others), shapes differ (sweep)")
     out.extra["tolerances"] = {"gather / affine (exact copies, dyadic data)": 1e-12, "log_prob, KL (float64 Cholesky vs exact rational + mpmath)": 1e-8,
                                "rsample": 1e-9}
-    out.tested_not_proved = ["KL >= 0 and equality of the Cholesky / inv_quad_logdet form with the closed form (log det monotonicity, "
-                             "DESIGN 9.3)", "log_prob / KL / + broadcasting against the batch (every broadcastable shape pair of rank <= 2, sizes <= 3, compared "
+    out.tested_not_proved = ["KL >= 0 / equality of the Cholesky form with the closed form for covariances WITHOUT a triangular factor of "
+                             "positive diagonal (proved for Cholesky-factored P, Q: c10_kl_nonnegative, c10_kl_closed_form_is_cholesky_form)", "log_prob / KL / + broadcasting against the batch (every broadcastable shape pair of rank <= 2, sizes <= 3, compared "
                              "element-wise with the exact density of the slices the proved index map selects)",
                              "sample moments converge (not tested: would be a flaky statistical check)",
                              "torch indexing semantics on batch components"]
